@@ -127,9 +127,9 @@ def judge_orders(ctx, tag, ssi, H, br, ordmax, dt, T, orders, sig):
         for j in range(order):
             k = int(np.argmin(np.abs(lam_tab - l0[j])))
             rel = abs(Fc[k, order] - tot[1e-6][j]) / tot[1e-6][j]
-            worst = max(worst, rel)
+            worst = np.inf if (np.isnan(rel) or np.isnan(worst)) else max(worst, rel)  # a NaN variance is a mismatch
         ctx.maxi(f"{tag}: worst relative difference", worst)
-        if worst > 1e-3:
+        if not (worst <= 1e-3):
             ratio = [float(Fc[int(np.argmin(np.abs(lam_tab - l0[j]))), order] / tot[1e-6][j]) for j in range(order)]
             ctx.fail(f"{sig}:variance_not_first_order_propagation",
                      f"{tag}: H {H.shape}, br={br}, ordmax={ordmax}, order={order}, {nb} factor column(s): reported variance / squared directional derivative = {np.round(ratio, 4).tolist()} (finite-difference agreement {agree:.1e})")
@@ -213,7 +213,7 @@ def run_definition(ctx, rng):
     Tdef = np.hstack([(hk - Hfull).reshape(-1, 1, order="F") for hk in Hk]) / np.sqrt(nb * (nb - 1))
     err = np.linalg.norm(T - Tdef) / np.linalg.norm(Tdef)
     ctx.maxi("factor-definition@build_hank: worst relative difference", err)
-    if err > 1e-8:
+    if not (err <= 1e-8):
         Trow = np.hstack([(hk - Hfull).reshape(-1, 1, order="C") for hk in Hk]) / np.sqrt(nb * (nb - 1))
         Tunscaled = np.hstack([(hk / N - Hfull).reshape(-1, 1, order="C") for hk in Hk]) / np.sqrt(nb * (nb - 1))
         mech = "mismatch"
